@@ -9,6 +9,9 @@ pub mod c05;
 pub mod c06;
 pub mod c07;
 pub mod c08;
+pub mod c09;
+pub mod c10;
+pub mod c11;
 
 /// (report, rule, explanation, exhaustive-subspace flag)
 pub fn run(prop: &str, ctx: &Ctx) -> Option<(Report, &'static str, &'static str, bool)> {
@@ -21,6 +24,9 @@ pub fn run(prop: &str, ctx: &Ctx) -> Option<(Report, &'static str, &'static str,
         "C06" => (c06::run(ctx), c06::RULE, "", true),
         "C07" => (c07::run(ctx), c07::RULE, "", false),
         "C08" => (c08::run(ctx), c08::RULE, "", true),
+        "C09" => (c09::run(ctx), c09::RULE, "", false),
+        "C10" => (c10::run(ctx), c10::RULE, "", false),
+        "C11" => (c11::run(ctx), c11::RULE, "", true),
         _ => return None,
     })
 }
